@@ -160,6 +160,16 @@ def generate0(tier, rng):
             yield 'cbor.enc 1 m1 ' + ' '.join(entry(k1, ['t' + hexs(b'image/webp')]))
             yield 'cbor.enc 1 m2 ' + ' '.join(entry(k1, ['b' + hexs(rbytes(rng, 40))]) + entry(k2, ['u7']))
             yield 'cbor.enc 1 m2 ' + ' '.join(entry('u1', ['t' + hexs(b'v' * kl)]) + entry(k2, ['a2', 'u1', 'u2']))
+    # keys of equal length that agree in their first 7, 8, 9, 15 bytes (a comparison that looks at a prefix only cannot order them), in every
+    # caller order, with and without a duplicate among them
+    for ks in ([b'content-language', b'content-encoding'], [b'content-language', b'content-encoding', b'content-location'], [b'abcdefgX', b'abcdefgA'], [b'abcdefghX', b'abcdefghA'],
+               [b'abcdefghiX', b'abcdefghiA'], [b'x' * 15 + b'b', b'x' * 15 + b'a', b'x' * 15 + b'c'], [b'x' * 30 + b'2', b'x' * 30 + b'1']):
+        for perm in itertools.permutations(ks):
+            yield 'cbor.enc 1 m%d ' % len(perm) + ' '.join(sum((entry('t' + hexs(k), [f'u{i}']) for i, k in enumerate(perm)), []))
+        for perm in itertools.permutations(ks + [ks[0]]):
+            yield 'cbor.enc 1 m%d ' % len(perm) + ' '.join(sum((entry('t' + hexs(k), [f'u{i}']) for i, k in enumerate(perm)), []))
+        for perm in itertools.permutations(ks):
+            yield 'cbor.enc 1 m%d ' % len(perm) + ' '.join(sum((entry('b' + hexs(k), [f'u{i}']) for i, k in enumerate(perm)), []))
     # entry counts around the head-size boundary of the map header (23 | 24, and up to 32), top level and nested, into both writer kinds
     for n in (22, 23, 24, 25, 27, 31, 32, 33, 255, 256, 257):
         ents = sum((entry(f'u{i}', [f'u{i % 7}']) for i in range(n)), [])
